@@ -176,6 +176,8 @@ def run(rep: common.Report, tier: str, seed: int, replay=None) -> int:
     specs.append(dict(shape="box", holes=1, terminals=2, smooth=0, max_edge_length=0.9, xi=0.5, moved=(1.7, 0.0)))
     specs.append(dict(shape="ellipse", holes=0, terminals=2, smooth=0, max_edge_length=0.9, xi=0.5, moved=(0.0, -2.2)))
     specs.append(dict(shape="box", holes=2, terminals=0, smooth=0, max_edge_length=0.9, xi=1.0, moved=(0.6, 0.8)))
+    specs.append(dict(shape="box", holes=1, terminals=2, smooth=0, max_edge_length=0.9, xi=0.5, remesh_at=(20.0, 5.0)))
+    specs.append(dict(shape="ellipse", holes=2, terminals=0, smooth=2, max_edge_length=0.9, xi=0.5, remesh_at=(-7.5, 31.0)))
     texts, infos = [], []
     for mi, spec in enumerate(specs):
         try:
@@ -197,6 +199,16 @@ def run(rep: common.Report, tier: str, seed: int, replay=None) -> int:
                           {"mesh": mi, **spec})
         if spec.get("moved"):
             dev.translate(dx=spec["moved"][0], dy=spec["moved"][1], inplace=True)
+        if spec.get("remesh_at"):
+            # feature pair holes + a device that sits far from the origin: moved (a mesh-less copy) and meshed THERE
+            far = dev.translate(dx=spec["remesh_at"][0], dy=spec["remesh_at"][1])
+            try:
+                far.make_mesh(max_edge_length=spec["max_edge_length"] * spec.get("scale", 1.0), smooth=spec["smooth"])
+                dev = far
+            except Exception as e:  # noqa: BLE001
+                rep.violation(f"a device that meshes at the origin could not be meshed after a translation: {type(e).__name__}: {e}"[:200],
+                              {"mesh": mi, **{k: str(v) for k, v in spec.items()}})
+                continue
         U, kite, edge_tris, okm = check_mesh(rep, dev, spec, mi)
         rep.nontrivial((spec["shape"], spec["holes"], spec["terminals"], spec["smooth"], spec["max_edge_length"],
                         spec.get("hole_kind", "convex"), spec.get("pad", False)))
